@@ -78,3 +78,110 @@ pub fn toa(a: &Args) {
     }
     println!("events={}", out.finish());
 }
+
+// ------------------------------------------------------------------ LDRO (C15)
+use crate::mock::{block_on, Bus, BusEv, MockIv, MockSpi};
+use lora_phy::mod_traits::RadioKind;
+use lora_phy::{lr1110, sx126x, sx127x};
+
+fn spi_writes(bus: &std::rc::Rc<std::cell::RefCell<Bus>>) -> Vec<Vec<u8>> {
+    bus.borrow()
+        .log
+        .iter()
+        .filter_map(|e| match e {
+            BusEv::Spi { w, .. } => Some(w.clone()),
+            _ => None,
+        })
+        .collect()
+}
+
+/// Query one driver: (supported, decision, raw SPI writes of set_modulation_params)
+fn query<RK: RadioKind>(
+    rk: &mut RK,
+    bus: &std::rc::Rc<std::cell::RefCell<Bus>>,
+    sf: SpreadingFactor,
+    bw: Bandwidth,
+) -> Option<(u8, Vec<Vec<u8>>)> {
+    let mp = rk.create_modulation_params(sf, bw, CodingRate::_4_5, 868_100_000).ok()?;
+    bus.borrow_mut().log.clear();
+    let r = block_on(rk.set_modulation_params(&mp));
+    if r.is_err() {
+        return None;
+    }
+    Some((mp.low_data_rate_optimize, spi_writes(bus)))
+}
+
+/// `vh ldro`: every implementation's LDRO decision and the bytes it programs, for all 80 (SF,BW).
+pub fn ldro(a: &Args) {
+    let mut out = Shards::create(&a.out, "ldro", a.shards);
+    let only: Option<Vec<usize>> = a.get("only").map(|s| s.split(',').map(|x| x.parse().unwrap()).collect());
+    for (bi, bw) in BWS.iter().enumerate() {
+        for sf in SFS {
+            if let Some(o) = &only {
+                if o[0] != sf.factor() as usize || o[1] != bi {
+                    continue;
+                }
+            }
+            let mut decisions: Vec<u32> = Vec::new();
+            let calc = BaseBandModulationParams::new(sf, *bw, CodingRate::_4_5).ldro as u32;
+            decisions.push(calc);
+            out.emit(&json!({"ev":"ldro","impl":"calc","what":"decision","sf":sf.factor(),"bw":bi,
+                             "supported":1,"ldro":calc,"txns":[]}));
+            let mut rec = |name: &str, q: Option<(u8, Vec<Vec<u8>>)>, decisions: &mut Vec<u32>| match q {
+                None => out.emit(&json!({"ev":"ldro","impl":name,"what":"decision","sf":sf.factor(),"bw":bi,
+                                         "supported":0,"ldro":0,"txns":[]})),
+                Some((d, txns)) => {
+                    decisions.push(d as u32);
+                    out.emit(&json!({"ev":"ldro","impl":name,"what":"decision","sf":sf.factor(),"bw":bi,
+                                     "supported":1,"ldro":d,"txns":[]}));
+                    out.emit(&json!({"ev":"ldro","impl":name,"what":"written","sf":sf.factor(),"bw":bi,
+                                     "supported":1,"ldro":-1,"txns":txns}));
+                }
+            };
+            {
+                let bus = Bus::new();
+                let mut rk = sx126x::Sx126x::new(
+                    MockSpi(bus.clone()),
+                    MockIv(bus.clone()),
+                    sx126x::Config { chip: sx126x::Sx1262, tcxo_ctrl: None, use_dcdc: false, rx_boost: false },
+                );
+                rec("sx126x", query(&mut rk, &bus, sf, *bw), &mut decisions);
+            }
+            {
+                let bus = Bus::new();
+                let mut rk = sx127x::Sx127x::new(
+                    MockSpi(bus.clone()),
+                    MockIv(bus.clone()),
+                    sx127x::Config { chip: sx127x::Sx1276, tcxo_used: false, tx_boost: false, rx_boost: false },
+                );
+                rec("sx1276", query(&mut rk, &bus, sf, *bw), &mut decisions);
+            }
+            {
+                let bus = Bus::new();
+                let mut rk = sx127x::Sx127x::new(
+                    MockSpi(bus.clone()),
+                    MockIv(bus.clone()),
+                    sx127x::Config { chip: sx127x::Sx1272, tcxo_used: false, tx_boost: false, rx_boost: false },
+                );
+                rec("sx1272", query(&mut rk, &bus, sf, *bw), &mut decisions);
+            }
+            {
+                let bus = Bus::new();
+                let mut rk = lr1110::Lr1110::new(
+                    MockSpi(bus.clone()),
+                    MockIv(bus.clone()),
+                    lr1110::Config {
+                        pa_selection: lr1110::PaSelection::Lp,
+                        dio_as_rf_switch: None,
+                        tcxo_ctrl: None,
+                        use_dcdc: false,
+                        rx_boost: false,
+                    },
+                );
+                rec("lr1110", query(&mut rk, &bus, sf, *bw), &mut decisions);
+            }
+            out.emit(&json!({"ev":"ldro_agree","sf":sf.factor(),"bw":bi,"decisions":decisions}));
+        }
+    }
+    println!("events={}", out.finish());
+}
